@@ -166,7 +166,10 @@ class Probe(SourceProxy):
         This is used internally.
         """
         if not self._raw:
-            data = {name: cap.value for name, cap in data.items()}
+            # (a declared-only focus variable has no value yet)
+            data = {
+                name: cap.value for name, cap in data.items() if cap.values
+            }
             if element is not None and element.capture not in data:
                 data = _UnsetFocus(data, element.capture)
         self._push(data)
